@@ -33,7 +33,8 @@ def _task(args):
     w = world()
     b = Budget()
     if tier == 'thorough':
-        b.obl_ms, b.feas_ms = 60000, 5000
+        b.obl_ms, b.feas_ms = 60000, 200
+        b.second_opinion_every = 25
     if variant == '@lemma':
         modname, node, kw = next(x for x in w.reg.lemmas if f'{x[0]}:{x[1].name}' == target)
         r = verify_lemma(w, modname, node, kw, b)
@@ -219,10 +220,18 @@ def main():
             errors.append(('seeded-changes', None, 'seeded change no longer caught: ' + ', '.join(f['seed'] for f in seeded_res['failures'])))
             if exit_code == 0:
                 exit_code = 3
+    second = {'sampled': sum(1 for o in all_obls if o.get('cvc5')), 'cvc5_unsat(agree)': sum(1 for o in all_obls if o.get('cvc5') == 'unsat'),
+              'cvc5_unknown': sum(1 for o in all_obls if o.get('cvc5') == 'unknown'),
+              'cvc5_sat(DISAGREE)': [o['name'] for o in all_obls if o.get('cvc5') == 'sat']}
+    if second['cvc5_sat(DISAGREE)']:
+        errors.append(('second-opinion', None, 'cvc5 finds a model for obligations z3 discharged: ' + ', '.join(second['cvc5_sat(DISAGREE)'][:5])))
+        if exit_code == 0:
+            exit_code = 3
     coverage = {
         # obligations claimed = all obligations generated minus the ones recorded as known findings (listed below)
         'obligations': n_obl - len(known), 'discharged': n_dis,
         'obligations_generated': n_obl,
+        'second_opinion_cvc5': second if tier == 'thorough' else None,
         'mutation_selftest': selftest,
         'seeded_changes': seeded_res,
         'refuted_known_findings': len(known), 'refuted_new': len(new), 'undecided': len(undecided),
